@@ -322,3 +322,71 @@ Example C01_example_write_spans :
                 | None => (-1, -1, -1) end) [8%nat; 9%nat; 17%nat; 33%nat; 40%nat]
   = [(8, 0, 0); (9, 0, 1); (17, 0, 2); (33, 0, 4); (40, 0, 4)].
 Proof. exact io_write_spans. Qed.
+
+(* ------------------------------------------------------------------------------------------
+   An early answer keeps the request (strengthening W01).  The bytes a handler Reads are slices of
+   the frame its request reader is parsed into.  Gen/GenC01RelSites.v (go2v/c01relsites.go) lists,
+   regenerated from the source, every call that can give that frame back to the FramePool;
+   Model/C01RelSites.v knows these sites with the moment at which each runs. *)
+From Verif Require Import Model.C01RelSites Gen.GenC01RelSites Proofs.C01RelSitesP.
+
+(* the regenerated table is the model's table: the reader's own releases of a fragment it has
+   consumed (fragmentingReader.Close of the last argument, recvAndParseNextFragment before it
+   fetches), the two paths that FAIL a call (InboundCallResponse.SendSystemError, dispatchInbound
+   when the method cannot be read) and the wrappers releasePreviousFragment / done -- same
+   functions, same callees, same receivers, same guards *)
+Theorem C01_release_sites_generated : c01_release_sites = map fst c01r_known.
+Proof. exact c01r_sites_exact. Qed.
+
+(* no function outside these reaches a release (closure over static, embedded, interface and
+   closure calls, cut at the reader's API, SendSystemError and dispatchInbound) *)
+Theorem C01_releasing_functions_generated : c01r_functions_ok c01_releasing_functions = true.
+Proof. exact c01r_functions_ok_holds. Qed.
+
+(* in the world of this run's table: a handler of a call that is not failed obtains from every Read
+   the bytes its caller sent at that position -- whenever it completes its response (RvRespComplete),
+   whatever frames the pool reuses (RvReuse: only frames that were given back), across fragments
+   (RvAdvance) *)
+Theorem C01_early_answer_keeps_request : forall own evs,
+  forallb (fun e => negb (c01r_is_fail e)) evs = true ->
+  Forall (fun p => fst p = snd p) (c01r_run c01_release_sites (c01r_init own) evs).
+Proof. exact c01r_early_answer. Qed.
+
+(* ... and for every table all of whose sites are known ones *)
+Theorem C01_early_answer_any_known_table : forall tbl own evs,
+  c01r_table_ok tbl = true ->
+  forallb (fun e => negb (c01r_is_fail e)) evs = true ->
+  Forall (fun p => fst p = snd p) (c01r_run tbl (c01r_init own) evs).
+Proof. exact c01r_early_answer_any_table. Qed.
+
+(* without the hypothesis "the call is not failed" the statement is FALSE of the pinned tree (known
+   finding c01:read-after-syserr): SendSystemError gives the request frame back and leaves the
+   reader parsed into it, the handler that reads on gets another frame's bytes with no error *)
+Theorem C01_read_after_failed_call_refuted :
+  exists own evs, ~ Forall (fun p => fst p = snd p) (c01r_run c01_release_sites (c01r_init own) evs).
+Proof. exact c01r_read_after_fail_refuted. Qed.
+
+Print Assumptions C01_release_sites_generated.
+Print Assumptions C01_read_after_failed_call_refuted.
+Print Assumptions C01_releasing_functions_generated.
+Print Assumptions C01_early_answer_keeps_request.
+Print Assumptions C01_early_answer_any_known_table.
+
+(* non-vacuity: the hypothesis distinguishes -- a table with one more site (a release in
+   InboundCallResponse.doneSending) is refused, and in its world the handler that answers first
+   reads the bytes of the frame that was read into the reused memory, with no error; the same trace
+   in the world of this run's table returns the caller's bytes *)
+Example C01_example_doneSending_table_refused : c01r_table_ok c01r_table_with_doneSending = false.
+Proof. exact c01r_doneSending_refused. Qed.
+
+Example C01_example_doneSending_foreign :
+  c01r_run c01r_table_with_doneSending (c01r_init [1; 2; 3; 4; 5])
+    [RvRead 2; RvRespComplete; RvReuse [9; 9; 9; 9; 9]; RvRead 3]
+  = [([1; 2], [1; 2]); ([9; 9; 9], [3; 4; 5])].
+Proof. exact c01r_doneSending_foreign. Qed.
+
+Example C01_example_early_answer_own :
+  c01r_run c01_release_sites (c01r_init [1; 2; 3; 4; 5])
+    [RvRead 2; RvRespComplete; RvReuse [9; 9; 9; 9; 9]; RvRead 3]
+  = [([1; 2], [1; 2]); ([3; 4; 5], [3; 4; 5])].
+Proof. exact c01r_example_own. Qed.
